@@ -96,7 +96,9 @@ def clock_cases(rng, fails):
   return n
 
 
-def render(text, b1, b2, lead_nl):
+def render(text, b1, b2, lead_nl, blank="   "):
+  """`blank`: what the whitespace token of the universe stands for (spaces, a tab, a mix - all are whitespace around a line)"""
+  WS = {"": "", "w": blank}
   lines = []
   for t in text:
     if t["k"] == "blank":
@@ -125,12 +127,12 @@ def run(maxlen, seed, pairs_cap):
     b1, b2 = bs[k % len(bs)], bs[(k * 7 + 3) % len(bs)]
     if b1 == b2:
       b2 = bs[(k * 7 + 4) % len(bs)]
-    for lead_nl in (False, True):
-      src = render(text, b1, b2, lead_nl)
+    for lead_nl, blank in ((False, "   "), (True, "   "), (False, "\t"), (True, " \t "), (False, "\t  ")):
+      src = render(text, b1, b2, lead_nl, blank)
       with stripped(src) as got:
         got = as_list(got)
       exp = [{"b1": b1, "b2": b2}[x] for x in norm]
-      results[(k, lead_nl)] = (got, norm, b1, b2)
+      results[(k, lead_nl, blank)] = (got, norm, b1, b2)
       recs.append({"text": src, "got": got, "expected": exp})
       if got != exp:
         fails.append({"kind": "norm", "text": src, "got": got, "expected": exp})
